@@ -20,8 +20,20 @@ package http2
 //	(final, wire) all bodies read/closed and all streams done: 0 <= configured − view < 4096
 //	            and that remainder is exactly inflow.unsent (the documented batching).
 //
-// A violation is keyed  <role>:<symptom>:<script action>@<discard path of the stream acted on>;
-// after reporting, the expectation is rebased so that the rest of the session is still checked.
+// Exactly one script action (which may itself contain concurrency: DATA in the same burst as a
+// reset, a read command racing with arriving frames) lies between two checks, and every stream
+// is put on at most one discard path, so a violation is attributed to that path. Keys:
+//
+//	<role>:<symptom>@<discard path>          the action touched a stream on that discard path
+//	                                         (after-trailers and short-body count as after-end-stream)
+//	<role>:<symptom>:<action>@clean          the action touched only untouched streams
+//	server:credit-excess:body-read-after-stream-closed   excess no larger than what handlers read,
+//	                                         since the last check, from streams closeStream had closed
+//	<role>:final-*, <role>:unsent-credit-out-of-range, <role>:{conn,stream}-window-exceeds-2^31-1
+//
+// symptom: credit-lost / credit-excess (the INV sum is below / above the configured window),
+// data-not-counted / window-update-not-on-wire (peer view below / above inflow.avail).
+// After reporting, the expectation is rebased so that the rest of the session is still checked.
 
 import (
 	"fmt"
@@ -118,8 +130,17 @@ func vrfC10Server(r *verifrt.R, c *verifrt.Case) {
 	if inner != "" {
 		c.Violation("harness-panic", "panic in the C10 server script: %s", inner)
 	}
+	h.S.mu.Lock()
+	npanics := len(h.S.panics)
+	h.S.mu.Unlock()
 	if outer != "" {
-		c.Violation("bubble-did-not-exit:"+outer, "after the client closed the connection and released every handler the bubble could not exit: %s\n%s", outer, h.hist())
+		if npanics > 0 {
+			// the serve loop died in a panic (reported below): goroutines it left behind are its
+			// consequence, not a finding of their own
+			r.Event("server_bubble_left_goroutines_after_serve_loop_panic", 1)
+		} else {
+			c.Violation("bubble-did-not-exit:"+outer, "after the client closed the connection and released every handler the bubble could not exit: %s\n%s", outer, h.hist())
+		}
 	}
 	h.corruptions()
 	h.S.mu.Lock()
